@@ -59,7 +59,7 @@ func flagValue(t *rapid.T, label string) string {
 
 type savedEntry struct {
 	Command, Description, Niche string
-	Keywords, Platform          []string
+	Keywords, Platform, Tags    []string
 	Pipeline                    bool
 	AutoDesc                    bool     // save-pipeline without --description
 	UserKeywords                []string // save-pipeline: suffix of stored keywords
@@ -99,6 +99,9 @@ func matchSaved(got database.Command, want savedEntry) string {
 	}
 	if got.Pipeline != want.Pipeline {
 		return fmt.Sprintf("pipeline flag %v, saved %v", got.Pipeline, want.Pipeline)
+	}
+	if !sameList(got.Tags, want.Tags) {
+		return fmt.Sprintf("tags %+q, were %+q", got.Tags, want.Tags)
 	}
 	if want.UserKeywords != nil || want.Pipeline && want.AutoDesc {
 		n := len(want.UserKeywords)
@@ -162,9 +165,10 @@ func TestC08_Save(t *testing.T) {
 			os.WriteFile(h.Notebook(), nil, 0o644)
 		case "populated":
 			os.MkdirAll(filepath.Dir(h.Notebook()), 0o755)
-			pre := []database.Command{{Command: "old one", Description: "kept", Keywords: []string{"k"}}, {Command: "old two", Description: "also kept", Platform: []string{"linux"}, Pipeline: true}}
+			// a hand-edited / imported notebook: entries may carry every field, incl. tags and a category
+			pre := []database.Command{{Command: "old one", Description: "kept", Keywords: []string{"k"}, Tags: []string{"backup", "sync"}, Niche: "files"}, {Command: "old two", Description: "also kept", Platform: []string{"linux"}, Pipeline: true, Tags: []string{"x y"}}}
 			os.WriteFile(h.Notebook(), gen.EmitYAML(pre), 0o644)
-			model = []savedEntry{{Command: "old one", Description: "kept", Keywords: []string{"k"}}, {Command: "old two", Description: "also kept", Platform: []string{"linux"}, Pipeline: true}}
+			model = []savedEntry{{Command: "old one", Description: "kept", Keywords: []string{"k"}, Tags: []string{"backup", "sync"}, Niche: "files"}, {Command: "old two", Description: "also kept", Platform: []string{"linux"}, Pipeline: true, Tags: []string{"x y"}}}
 		}
 		n := rapid.IntRange(1, 6).Draw(t, "saves")
 		hostile, replaced, multiline := false, false, false
